@@ -887,6 +887,25 @@ func c03Port(c *Ctx, R string) {
 			return strings.Join(names, ",")
 		}
 		ca, cb := carried(pr.a), carried(pr.b)
+		// ... and nest the same way: a loop moved out of another one (or into it) gives regions that do not correspond
+		nesting := func(fn *ssa.Function) string {
+			loops := naturalLoops(fn)
+			sort.Slice(loops, func(i, j int) bool { return loops[i].Header.Index < loops[j].Header.Index })
+			var ds []string
+			for _, lp := range loops {
+				d := 0
+				for _, o := range loops {
+					if o != lp && o.Blocks[lp.Header] {
+						d++
+					}
+				}
+				ds = append(ds, fmt.Sprint(d))
+			}
+			return strings.Join(ds, "")
+		}
+		if na, nb := nesting(pr.a), nesting(pr.b); la == lb && ca == cb && na != nb {
+			ca, cb = ca+" nested "+na, cb+" nested "+nb
+		}
 		if la != lb || ha != "" || hb != "" || ca != cb {
 			nSkipped++
 			why := fmt.Sprintf("%d loops in the port, %d in strconv", la, lb)
